@@ -43,6 +43,8 @@ class Rule:
         self.notes.append(s)
 
     def require_floor(self):
+        if any(o["verdict"] == "FAILED" for o in self.obligations):
+            return  # a failing obligation is reported as such; dependent obligations may legitimately be skipped
         if len(self.obligations) < self.floor:
             raise AnalysisError(
                 self.rid,
